@@ -243,7 +243,7 @@ _SAFE_BUILTINS = {
     "ord", "chr", "max", "min", "sorted", "any", "all", "abs", "sum", "reversed", "float", "object",
     "True", "False", "None", "Exception", "TypeError", "ValueError", "divmod", "round", "pow", "hex", "oct", "bin",
     "slice", "bytes", "callable", "ascii", "filter", "KeyError", "IndexError", "AttributeError", "NotImplementedError",
-    "RuntimeError", "StopIteration", "AssertionError",
+    "RuntimeError", "StopIteration", "AssertionError", "id",
 }
 
 import io as _io_mod
@@ -285,6 +285,8 @@ _EXT_MODULES = {"re": re, "string": string,
                     "chain", "pairwise", "product", "groupby", "takewhile", "dropwhile", "islice", "zip_longest", "repeat",
                     "accumulate", "starmap", "combinations", "permutations", "count", "cycle", "compress", "filterfalse", "tee")}),
                 "operator": _OPERATOR_NS,
+                "bisect": _types.SimpleNamespace(**{n: getattr(__import__("bisect"), n) for n in (
+                    "bisect", "bisect_left", "bisect_right", "insort", "insort_left", "insort_right")}),
                 "collections": _types.SimpleNamespace(deque=_collections_mod.deque, OrderedDict=dict, namedtuple=_collections_mod.namedtuple),
                 "types": _types.SimpleNamespace(MappingProxyType=lambda d: d, SimpleNamespace=_types.SimpleNamespace),
                 "dataclasses": _types.SimpleNamespace(dataclass="<dataclass>", field="<field>"),
@@ -628,7 +630,7 @@ class Interp:
             kwargs = {k: (self.to_str(v, node) if isinstance(v, (Obj, Native)) else v) for k, v in kwargs.items()}
         for a in list(args) + list(kwargs.values()):
             if isinstance(a, (Obj, Native, Lazy)):
-                if f in (tuple, list, set, frozenset, dict) or \
+                if f in (tuple, list, set, frozenset, dict, id) or \
                         isinstance(getattr(f, "__self__", None), (list, dict, set, _collections_mod.deque)) or \
                         f is _collections_mod.deque or getattr(f, "__module__", None) == "itertools" or \
                         (isinstance(f, type) and f.__module__ == "itertools") or isinstance(getattr(f, "__self__", None), type) and \
